@@ -176,10 +176,11 @@ class Scheduler:
         if j is None:
             self.cur = None
             self.finished = True
-            return
+            return True
         self.cur = j
         self.budget = self._next_budget()
         self._wake[j]()
+        return False
 
     # -- tracing ------------------------------------------------------------
 
@@ -279,8 +280,9 @@ class Scheduler:
                 self.errors.append(f'thread {i}: {type(e).__name__}: {e}\n{traceback.format_exc()}')
             finally:
                 sys.settrace(None)
-                self._exit(i)
-            if self.finished:
+                last = self._exit(i)
+            # (after handing the baton on, this thread must not read shared state: the next one runs)
+            if last:
                 # last one out: nothing else is running; release everybody, then the caller
                 for k in range(self.n):
                     if k != i:
